@@ -639,40 +639,42 @@ def rule_R4_R5_R6(ctx):
     idx = Q.calls(fbm, "ops::Index<I>>::index")
     ctx.check(len(idx) >= 2, "R4", "find_best_match:entries-by-index", "entries[label_idx], sig_vec[sig_idx]",
               "candidate (label, signature) not fetched by the stored indices", ctx.loc(fbm))
-    # R5 quality from the minimum
-    qs = Q.calls(fbm, "get_quality_score")
+    # R5 quality from the minimum (the call may sit in the closure of `best.zip(..).map(|(l, s)| (l, s, s.get_quality_score(min)))`)
+    qs = [(fbm, blk, t) for blk, t in Q.calls(fbm, "get_quality_score")]
+    for cb in P.closures_of(fbm.path):
+        qs += [(cb, blk, t) for blk, t in Q.calls(cb, "get_quality_score")]
     if not qs:
         ctx.cannot("R5", "find_best_match:quality", "no get_quality_score call", ctx.loc(fbm))
-    for blk, t in qs:
-        nst = len(fbm.blocks[blk]["s"])
+    for qb, blk, t in qs:
         a = t["args"][-1]
         p = a.get("c") or a.get("m")
         okq = False
-        if p and not p["pr"]:
+        if p and qb is fbm and not p["pr"]:
             # copy chain to the min local
-            tt = _copy_root(fbm, p["l"])
-            okq = (tt == ml)
+            okq = (_copy_root(fbm, p["l"]) == ml)
+        elif p:
+            # captured variable of the closure: the operand the closure was created with
+            at = T.strip(T.expand_upvars(P, qb, T.Slicer(qb, P).operand(a, blk, len(qb.blocks[blk]["s"])), depth=2))
+            while at[0] in ("upvar", "ref", "deref"):
+                at = T.strip(at[2] if at[0] in ("upvar", "ref") else at[1])
+            for i_, j_, s_ in fbm.iter_stmts():
+                if s_["k"] == "assign" and s_["r"]["k"] == "agg" and s_["r"]["ak"] == "closure" and s_["r"].get("path") == qb.path:
+                    okq = okq or at == T.strip(S.operand({"c": {"l": ml, "pr": []}}, i_, j_))
         ctx.check(okq, "R5", "find_best_match:quality", "get_quality_score(min_distance)",
-                  "reported quality is not computed from the running minimum distance", ctx.loc(fbm, blk))
+                  "reported quality is not computed from the running minimum distance", ctx.loc(qb, blk))
     # R6 returns
-    rets = []
-    for i, j, s in fbm.iter_stmts():
-        if s["k"] == "assign" and s["p"]["l"] == 0 and not s["p"]["pr"] and s["r"]["k"] == "agg":
-            rets.append((i, j, s["r"]["variant"]))
-    somes = [r for r in rets if r[2] == "Some"]
-    nones = [r for r in rets if r[2] == "None"]
-    # `x?` on an Option returns None through FromResidual::from_residual
-    nones += [(blk, -1, "None") for blk, t in Q.calls(fbm, "::from_residual") if t["dest"]["l"] == 0 and not t["dest"]["pr"] and "Option<" in fbm.local_ty(0)]
+    alts = TB.return_alternatives(fbm, P)
+    somes = [x for x in alts if T.strip(x[2])[0] == "agg" and T.strip(x[2])[3] == "Some"]
+    nones = [(x[0], x[1], "None") for x in alts if (T.strip(x[2])[0] == "agg" and T.strip(x[2])[3] == "None") or
+             (T.strip(x[2])[0] == "call" and T.strip(x[2])[1].endswith("::from_residual"))]
     ok6 = len(somes) == 1 and len(nones) >= 1
     if ok6:
-        i, j, _ = somes[0]
-        t = S.rvalue(fbm.blocks[i]["s"][j]["r"], i, j)
-        conds = Q.canon_conds(P, T.controls(fbm, S, i))
-        need = {c[2] for c in conds if c[0] == "variant" and c[3] is True}
-        ok6 = "Some" in need and T.has_call(t, "get_quality_score")
+        need = {c[2] for c in somes[0][3] if c[0] == "variant" and c[3] is True}
+        ok6 = "Some" in need and T.has_call(somes[0][2], "get_quality_score")
     ctx.check(ok6, "R6", "find_best_match:returns",
               "Some((label, sig, quality)) only under best refs being Some; None otherwise (%d None exits)" % len(nones),
               "return structure not recognised: Some-returns=%d None-returns=%d" % (len(somes), len(nones)), ctx.loc(fbm))
+    nones = list(dict.fromkeys(nones))
     for (i, j, _) in nones:
         conds = Q.canon_conds(P, T.controls(fbm, S, i))
         desc = []
@@ -692,9 +694,11 @@ def rule_R4_R5_R6(ctx):
     for blk, t in pushes:
         a = Q.call_args(new, SN, blk, t)
         recv, val = a[0], a[1]
-        if not (T.has_call(recv, "or_insert_with") or T.has_call(recv, "or_default") or T.has_call(recv, "or_insert")):
+        # `index.entry(key).or_default().push(pos)`, or the entry API by hand: `match index.get_mut(&key) { Some(v) => v.push(pos), None => insert }`
+        by_hand = T.has_call(recv, "HashMap::<K, V, S, A>::get_mut")
+        if not by_hand and not (T.has_call(recv, "or_insert_with") or T.has_call(recv, "or_default") or T.has_call(recv, "or_insert")):
             continue
-        if not T.has_call(recv, "HashMap::<K, V, S, A>::entry"):
+        if not by_hand and not T.has_call(recv, "HashMap::<K, V, S, A>::entry"):
             continue
         v = T.strip(val)
         if v[0] == "agg" and v[1] == "tuple" and len(v[4]) == 2:
@@ -716,6 +720,24 @@ def rule_R4_R5_R6(ctx):
     ctx.check(okp, "R4", "new:append-in-order", det,
               "index is not built by appending (label_idx, sig_idx) under every generated key in enumeration order", ctx.loc(new))
     ins = Q.calls(new, ["HashMap::<K, V, S, A>::insert", "::remove", "::retain", "::clear", "::truncate", "::pop", "sort", "dedup"])
+
+    def _fresh_key_insert(blk, t):
+        # an insert that runs only when `get_mut` of the same key found nothing replaces nothing
+        if not callee_of(t).endswith("HashMap::<K, V, S, A>::insert"):
+            return False
+        a = Q.call_args(new, SN, blk, t)
+        key = T.strip(a[1]) if len(a) > 1 else None
+        for c in Q.canon_conds(P, T.dom_conds(new, SN, blk)):
+            if c[0] == "variant" and c[2] == "None" and c[3] is True:
+                g = T.strip(c[1])
+                if g[0] == "call" and g[1].endswith("HashMap::<K, V, S, A>::get_mut") and len(g[2]) == 2:
+                    k2 = T.strip(g[2][1])
+                    while k2[0] in ("ref", "deref"):
+                        k2 = T.strip(k2[2] if k2[0] == "ref" else k2[1])
+                    if k2 == key:
+                        return True
+        return False
+    ins = [(blk, t) for blk, t in ins if not _fresh_key_insert(blk, t)]
     ctx.check(not ins, "R4", "new:no-replace", "no replacing/removing operation on the index map during construction",
               "index construction uses %s which can drop candidates" % [T.short(callee_of(t)) for _, t in ins], ctx.loc(new))
 
